@@ -287,6 +287,27 @@ def check_sample(w, st, nid, net, rec, S, msgs):
                             found.append(("source_indices_identical", site,
                                           {"env": k, "sources": [srcs[a], srcs[b]], "n": nk, "N": N,
                                            "seed": rec.get("seed")}))
+            # 3b. ... nor determined by one another: whenever source a repeats a row, source b repeats its row too
+            #     (both ways).  Each coincidence has probability 1/N under independent resampling; asserted only
+            #     when the repeats make the whole pattern less likely than 2**-64.
+            if N >= 2 and nk >= 2:
+                for a in range(len(srcs)):
+                    for b in range(a + 1, len(srcs)):
+                        ia, ib = idx[srcs[a]], idx[srcs[b]]
+                        repeats = len(ia) - len(set(ia))
+                        if repeats * math.log2(N) < 64:
+                            continue
+                        w.probes["sources>=2.functional_dependence_checkable"] += 1
+                        first, functional = {}, True
+                        for x, y in zip(ia, ib):
+                            if first.setdefault(x, y) != y:
+                                functional = False
+                                break
+                        if functional and ia != ib:
+                            found.append(("source_indices_identical", site,
+                                          {"env": k, "sources": [srcs[a], srcs[b]], "n": nk, "N": N, "repeats": repeats,
+                                           "what": "the row drawn for one source determines the row drawn for the other",
+                                           "seed": rec.get("seed")}))
     # 4. non-sources follow the protocol
     fits = {m[1]: m for m in peer().log if m[0] == "fit"}
     ident = {}
@@ -903,7 +924,7 @@ ASSUMPTIONS = [
     "a clean batch is evidence over the sampled histories, not a proof",
 ]
 
-REQUIRED_PROBES = ["sources>=2.independence_checkable", "sources>=2.independence_checkable.seeded",
+REQUIRED_PROBES = ["sources>=2.independence_checkable", "sources>=2.functional_dependence_checkable", "sources>=2.independence_checkable.seeded",
                    "non_source.parents>=2", "equal_sized_environments", "seed0",
                    "seeded_pair.nontrivial", "seeded_pair.seed0", "seeded_pair.numpy_integer_seed", "seeded_pair.seed_sequence_object_reused", "seeded_pair.sep.global_reseed",
                    "seeded_pair.k>=2.non_source", "peer.k>=2.non_source", "peer_fault.fit", "verbose",
